@@ -2,7 +2,7 @@ SPECIFICATION Spec
 CONSTANTS
   Deviations <- RealDevs
   RuleSets <- QuickSets
-  MaxDepth = 1
+  MaxDepth = 2
   Wide = FALSE
 INVARIANT PropertyHolds
 INVARIANT DeviationsExplain
